@@ -36,6 +36,14 @@ def projects(tier, seed):
                              "src/b.rs": b'fn b() {\n    error!("[ref: 3] three");\n}\n', "src/c.rs": b'fn c() {\n    info!("[ref: 4] four");\n}\n',
                              "src/d/e.rs": b'fn e() {\n    warn!("[ref: 5] five");\n}\n', "src/z.rs": b'fn z() {\n    info!("[ref: 6] six");\n}\n'},
                             use_cache=False, label="t_head_needs_tail_complete"))
+    # source files without any log statement (and an empty one) among the others - the stop request must be seen while such a file is
+    # the one in hand, too: no later file is started, and an interrupted --check does not pass
+    plain = {"src/aa_plain.rs": b'pub fn helper() -> u32 {\n    7\n}\n', "src/m_empty.rs": b'',
+             "src/n_plain.rs": b'// nothing to see: println!("not configured")\npub const N: usize = 3;\n',
+             "src/zz/zz_plain.rs": b'pub mod inner {\n    pub fn f() {}\n}\n'}
+    ps.append(fault.Project(dict(plain, **{"src/a.rs": b'fn a() {\n    info!("needs one");\n}\n', "src/k.rs": b'fn k() {\n    warn!("needs one too");\n}\n',
+                                           "src/z.rs": b'fn z() {\n    error!("and this one");\n}\n'}), label="t_missing_with_statementless"))
+    ps.append(fault.Project(dict(plain, **full), label="t_complete_with_statementless"))
     # a source file of a few hundred KB (read, parsed and written in several steps)
     ps.append(fault.small_project(rnd, nfiles=2, stmts=(1, 2), big=300000, label="t_big300k"))
     if tier == "thorough":
